@@ -26,8 +26,8 @@ type Item struct {
 }
 
 type Source struct {
-	Name string `json:"name"`          // file name given to Compile
-	Src  string `json:"src,omitempty"` // inline source (generated programs)
+	Name string `json:"name"`           // file name given to Compile
+	Src  string `json:"src,omitempty"`  // inline source (generated programs)
 	File string `json:"file,omitempty"` // or: path relative to the gpython tree
 }
 
@@ -217,7 +217,7 @@ func (Engine) Shrink(sci interface{}) []interface{} {
 
 func (Engine) Describe() harness.EngineInfo {
 	return harness.EngineInfo{
-		Rule: "scenario = 1-4 sources (a .py file of the repository, a generated scoping program, an eval-mode expression or a single-mode statement) compiled by 1-4 simulated goroutines, each compile under its own map-order policy (asc/desc/rotation/seeded permutation), interleaved at every function entry and loop head of parser, symtable and compile by a seeded scheduler (random/PCT/quantum/serial); 1 in 3 scenarios also runs a program in a context concurrently. Baseline = the first compile of each key, alone, ascending order. distinct = distinct (sources, task scripts, schedule decisions) by hash; non-trivial = at least two compiles of the same key or two tasks",
+		Rule:        "scenario = 1-4 sources (a .py file of the repository, a generated scoping program, an eval-mode expression or a single-mode statement) compiled by 1-4 simulated goroutines, each compile under its own map-order policy (asc/desc/rotation/seeded permutation), interleaved at every function entry and loop head of parser, symtable and compile by a seeded scheduler (random/PCT/quantum/serial); 1 in 3 scenarios also runs a program in a context concurrently. Baseline = the first compile of each key, alone, ascending order. distinct = distinct (sources, task scripts, schedule decisions) by hash; non-trivial = at least two compiles of the same key or two tasks",
 		Real:        []string{"parser (lexer + yacc)", "symtable", "compile", "vm (runner task)"},
 		Stubbed:     []string{"Go map iteration order -> simulator", "goroutine interleaving -> simulator (cooperative tasks, preemption at function entries / loop heads)"},
 		Assumptions: []string{"two failing compiles of the same key are only required to fail with the same exception class", "data races proper (weak memory) are decided by the separate race-detector mode, not by the cooperative interleaving"},
